@@ -566,6 +566,24 @@ def fitValidate (npts : Nat) (loss : Loss) (bias : Bool) (nAnl : Nat) : Option F
     | .lorentzian => if bias then some .runtime else if nAnl < 1 then some .runtime else none
     | .gaussian => if nAnl < 1 then some .runtime else none
 
+/-! ## Deepening round D — the spectrum as a function of frequency, the driven peak -/
+
+section deepen2
+variable {α : Type} [RealLike α]
+
+/-- `lambda f: model(f, fc, D, *pars)` as `_fit_power_spectra` evaluates it on the frequency axis;
+    `nan` stands for a call that raises (checked once, before the sum, by the `c11.chi2` op) -/
+def Mdl.psdOr (m : Mdl α) (flt : Filt α) (fc dc : α) (pars : List α) (nan : α) : α → α :=
+  fun f => match m.psd flt f fc dc pars with
+    | .ok v => v
+    | .error _ => nan
+
+/-- `DrivenPower.determine_power_output`: `max_idx = np.argmax(self.ps.power)`,
+    `max_power_density = self.ps.power[max_idx]` -/
+def peakPower (powers : List α) : Option α := powers[argmax powers]?
+
+end deepen2
+
 /-! ## Line protocol -/
 
 def optFloat? (s : String) : Option (Option Float) :=
@@ -658,8 +676,16 @@ def handle : List String → Option String
   | "c11.active" :: rest => do
     let (o, drag, rest) ← parseOpts? rest
     let (flt, rest) ← parseFilt? rest
+    -- an optional last token `[powers]`: the spectrum of `DrivenPower` around the driving peak; the
+    -- peak density is then taken by the model (`peakPower`), not from the `maxP` token
+    let (rest, powers) ← (match rest with
+      | [a, b, c, d, e, f, g, h, i, j, k, pw] => (floatList? pw).map fun l => ([a, b, c, d, e, f, g, h, i, j, k], some l)
+      | _ => some (rest, none))
     match rest with
     | [fd, amp, ampErr, maxP, df, pErr, fc, dc, efc, edc, pars] =>
+      let maxP ← (match powers with
+        | some l => (peakPower l).map showFloat
+        | none => some maxP)
       let fd ← float? fd; let amp ← float? amp; let ampErr ← float? ampErr
       let maxP ← float? maxP; let df ← float? df; let pErr ← float? pErr
       let fc ← float? fc; let dc ← float? dc; let efc ← float? efc; let edc ← float? edc
@@ -746,8 +772,7 @@ def handle : List String → Option String
           match m.psd flt (fs.headD 1.0) fc dc pars with
           | .error e => some e.name
           | .ok _ =>
-            let psd := fun f => match m.psd flt f fc dc pars with | .ok v => v | .error _ => 0.0 / 0.0
-            let c := chi2 psd (Float.ofNat n) fs ps
+            let c := chi2 (m.psdOr flt fc dc pars (0.0 / 0.0)) (Float.ofNat n) fs ps
             let dof := Float.ofNat fs.length - Float.ofNat (2 + pars.length)
             some ("ok " ++ showFloatList [c, c / dof])
     | _ => none
